@@ -1,13 +1,13 @@
 #!/bin/bash
 # Equivalent-rewrite selftest. In a scratch worktree, rewrite the whole module with checker/cmd/renameparams
 # (type-resolved, go/packages) and run all 58 quick checks against the result; every verdict must be the same as
-# on the unchanged tree (exit 0). Variants (all rename every parameter and receiver to <name>_r):
+# on the unchanged tree (exit 0). Variants (the first three also rename every parameter and receiver to <name>_r):
 #   locals   also every local variable and named result
 #   swapif   every `if c {A} else {B}` becomes `if !(c) {B} else {A}`
 #   swapcmp  every comparison with side-effect-free operands is mirrored (`a < b` -> `b > a`, `err != nil` -> `nil != err`)
 # Not registered in MANIFEST (dev aid; needs a scratch worktree).
 #   logs     a guarded debug statement in front of every statement of every function (adds zz_verifdbg.go files: run `git clean -fdq` in the worktree afterwards)
-#   defers   `defer func() {}()` at the top of every declared function (expected: C30 and C56 report, see DESIGN 12.6)
+#   defers   `defer func() {}()` at the top of every declared function (expected: C30 only-schedules reports, see DESIGN 12.6)
 # usage: selftest/rename_test.sh <scratch-worktree> [locals|swapif|swapcmp|logs|defers]
 set -u
 WT=${1:?scratch worktree}; MODE=${2:-locals}
